@@ -11,35 +11,42 @@ package field
 //@ const W = 0x10000000000000000
 
 //@ func cmovznzU64
+//@   props C12
 //@   mode bv
 //@   requires arg1 <= 1
 //@   ensures sel: *out1 == ite(arg1 == 0, arg2, arg3)
 //@   modifies *out1
 
 //@ func Selectznz
+//@   props C12
 //@   mode bv
 //@   requires c01: arg1 <= 1
 //@   ensures sel: forall(i, 0, 4, out1[i] == ite(arg1 == 0, old(arg2[i]), old(arg3[i])))
 //@   modifies *out1
 
 //@ func Nonzero
+//@   props C12
 //@   mode bv
 //@   ensures nz: (*out1 == 0) == (arg1[0] == 0 && arg1[1] == 0 && arg1[2] == 0 && arg1[3] == 0)
 //@   modifies *out1
 
 //@ func IsNonZero
+//@   props C12
 //@   mode bv
 //@   ensures r: result == ite(u == 0, 0, 1)
 
 //@ func IsZero
+//@   props C12
 //@   mode bv
 //@   ensures r: result == ite(u == 0, 1, 0)
 
 //@ func IsEqual
+//@   props C12
 //@   mode bv
 //@   ensures r: result == ite(u == v, 1, 0)
 
 //@ func Reduce
+//@   props C12
 //@   mode bv
 //@   ensures flag: result == ite(old(eval(x)) < P, 1, 0)
 //@   ensures val: eval(x) == ite(old(eval(x)) < P, old(eval(x)), old(eval(x)) - P)
@@ -54,6 +61,7 @@ package field
 //@ lemma glue_neg(o, a) {lean: Secp.glue_neg}: imp(a < P && o == (0 - a) % P, fromM(o) == fneg(fromM(a)))
 
 //@ func Add
+//@   props C12
 //@   mode int
 //@   requires eval(arg1) < P && eval(arg2) < P
 //@   ensures val: eval(out1) == (old(eval(arg1)) + old(eval(arg2))) % P
@@ -62,6 +70,7 @@ package field
 //@   modifies *out1
 
 //@ func Sub
+//@   props C12
 //@   mode int
 //@   requires eval(arg1) < P && eval(arg2) < P
 //@   ensures val: eval(out1) == (old(eval(arg1)) - old(eval(arg2))) % P
@@ -70,6 +79,7 @@ package field
 //@   modifies *out1
 
 //@ func Opp
+//@   props C12
 //@   mode int
 //@   requires eval(arg1) < P
 //@   ensures val: eval(out1) == (0 - old(eval(arg1))) % P
@@ -78,6 +88,7 @@ package field
 //@   modifies *out1
 
 //@ func SetOne
+//@   props C12
 //@   mode int
 //@   ensures val: eval(out1) == R % P
 //@   derives fv: fromM(eval(out1)) == F(1)
@@ -87,6 +98,7 @@ package field
 //@ lemma glue_mul(o, a, b) {lean: Secp.glue_mul}: imp(a < P && b < P && o < P && modeq(o * R, a * b, P), fromM(o) == fmul(fromM(a), fromM(b)))
 
 //@ func Mul
+//@   props C12
 //@   mode staged
 //@   requires eval(arg1) < P && eval(arg2) < P
 //@   prelemma bound: old(eval(arg1)) * old(eval(arg2)) <= (P - 1) * (P - 1)
@@ -97,9 +109,10 @@ package field
 
 //@ const R2P = 0x1000007a2000e90a1
 //@ lemma glue_to(o, a) {lean: Secp.glue_to}: imp(a < P && o < P && modeq(o * R, a * R2P, P), fromM(o) == fofint(a))
-//@ lemma glue_from(o, a) {lean: Secp.glue_from}: imp(a < P && o < P && modeq(o * R, a, P), fint(fromM(a)) == o)
+//@ lemma glue_from(o, a) {lean: Secp.glue_from}: imp(a < P && 0 <= o && o < P && modeq(o * R, a, P), fint(fromM(a)) == o)
 
 //@ func Square
+//@   props C12
 //@   mode staged
 //@   requires eval(arg1) < P
 //@   prelemma bound: old(eval(arg1)) * old(eval(arg1)) <= (P - 1) * (P - 1)
@@ -109,6 +122,7 @@ package field
 //@   modifies *out1
 
 //@ func FromMontgomery
+//@   props C12
 //@   mode staged
 //@   requires eval(arg1) < P
 //@   ensures mont: modeq(eval(out1) * R, old(eval(arg1)), P)
@@ -117,6 +131,7 @@ package field
 //@   modifies *out1
 
 //@ func ToMontgomery
+//@   props C12
 //@   mode staged
 //@   requires eval(arg1) < P
 //@   ensures mont: modeq(eval(out1) * R, old(eval(arg1)) * R2P, P)
@@ -126,19 +141,21 @@ package field
 
 // ---- field value layer: fv(e) = fromM(eval(e.E)) in F_p, wf(e) = eval(e.E) < P ----
 
-//@ lemma glue_zero(x) {lean: Secp.glue_zero}: imp(x < P, (fromM(x) == F(0)) == (x == 0))
-//@ lemma glue_inj(x, y) {lean: Secp.glue_inj}: imp(x < P && y < P, (fromM(x) == fromM(y)) == (x == y))
+//@ lemma glue_zero(x) {lean: Secp.glue_zero}: imp(0 <= x && x < P, (fromM(x) == F(0)) == (x == 0))
+//@ lemma glue_inj(x, y) {lean: Secp.glue_inj}: imp(0 <= x && x < P && 0 <= y && y < P, (fromM(x) == fromM(y)) == (x == y))
 //@ lemma fofint_mod(x, y) {lean: Secp.fofint_mod}: imp((x - y) % P == 0, fofint(x) == fofint(y))
 //@ lemma fint_range(x) {lean: Secp.fint_range}: 0 <= fint(x) && fint(x) < P
 //@ lemma fofint_fint(x) {lean: Secp.fofint_fint}: imp(0 <= x && x < P, fint(fofint(x)) == x)
 
 //@ func Element.One
+//@   props C12
 //@   mode int
 //@   ensures v: wf(e) && fv(e) == F(1)
 //@   modifies *e
 //@   returns e
 
 //@ func Element.Add
+//@   props C12
 //@   mode int
 //@   requires wf(u) && wf(v)
 //@   ensures v: wf(e) && fv(e) == fadd(old(fv(u)), old(fv(v)))
@@ -146,6 +163,7 @@ package field
 //@   returns e
 
 //@ func Element.Subtract
+//@   props C12
 //@   mode int
 //@   requires wf(u) && wf(v)
 //@   ensures v: wf(e) && fv(e) == fsub(old(fv(u)), old(fv(v)))
@@ -153,6 +171,7 @@ package field
 //@   returns e
 
 //@ func Element.Multiply
+//@   props C12
 //@   mode int
 //@   requires wf(u) && wf(v)
 //@   ensures v: wf(e) && fv(e) == fmul(old(fv(u)), old(fv(v)))
@@ -160,6 +179,7 @@ package field
 //@   returns e
 
 //@ func Element.Negate
+//@   props C12
 //@   mode int
 //@   requires wf(u)
 //@   ensures v: wf(e) && fv(e) == fneg(old(fv(u)))
@@ -167,6 +187,7 @@ package field
 //@   returns e
 
 //@ func Element.Square
+//@   props C12
 //@   mode int
 //@   requires wf(u)
 //@   ensures v: wf(e) && fv(e) == fmul(old(fv(u)), old(fv(u)))
@@ -174,11 +195,13 @@ package field
 //@   returns e
 
 //@ func Element.Sgn0
+//@   props C12
 //@   mode int
 //@   requires wf(e)
 //@   ensures par: result == fint(fv(e)) % 2
 
 //@ func Element.CMove
+//@   props C12
 //@   mode int
 //@   requires c01: c <= 1
 //@   requires wf(u) && wf(v)
@@ -187,24 +210,28 @@ package field
 //@   returns e
 
 //@ func Element.IsZero
+//@   props C12
 //@   mode int
 //@   requires wf(e)
 //@   ensures limbs: result == ite(eval(e) == 0, 1, 0)
 //@   derives z: result == ite(fv(e) == F(0), 1, 0) by glue_zero(eval(e))
 
 //@ func Element.Equals
+//@   props C12
 //@   mode int
 //@   requires wf(e) && wf(u)
 //@   ensures limbs: result == ite(eval(e) == eval(u), 1, 0)
 //@   derives eq: result == ite(fv(e) == fv(u), 1, 0) by glue_inj(eval(e), eval(u))
 
 //@ func Element.Bytes
+//@   props C12
 //@   mode int
 //@   requires wf(e)
 //@   ensures enc: os2ip(result) == fint(fv(e))
 //@   returns fresh:32
 
 //@ func Element.FromBytesWithReduce
+//@   props C12
 //@   mode int
 //@   ensures flag: result1 == ite(os2ip(input) < P, 1, 0)
 //@   ensures v: wf(e) && fv(e) == fofint(os2ip(input)) by fofint_mod(os2ip(input), os2ip(input) - P)
@@ -212,6 +239,7 @@ package field
 //@   returns e
 
 //@ func Element.FromBytesNoReduce
+//@   props C12
 //@   mode int
 //@   lens input 16,24
 //@   requires len(input) == 16 || len(input) == 24
@@ -222,6 +250,7 @@ package field
 //@ lemma fofint_wide(a, b, c) {lean: Secp.fofint_wide}: fadd(fadd(fofint(a), fmul(fofint(b), F(pow2(192)))), fmul(fofint(c), F(pow2(384)))) == fofint(a + b * pow2(192) + c * pow2(384))
 
 //@ func Element.HashToFieldElement
+//@   props C12
 //@   mode int
 //@   ensures v: wf(e) && fv(e) == fofint(os2ip(input)) by fofint_wide(os2ip(input[24:48]), os2ip(input[0:24]), 0)
 //@   modifies *e
@@ -231,6 +260,7 @@ package field
 //@ lemma fermat_inv(x) {lean: Secp.fermat_inv}: fpow(x, P - 2) == finv(x)
 
 //@ func Element.Invert
+//@   props C12
 //@   mode pow
 //@   requires wf(x)
 //@   ensures pw: wf(z) && fv(z) == fpow(old(fv(x)), P - 2)
@@ -239,6 +269,7 @@ package field
 //@   returns z
 
 //@ func Element.expPMin3Div4
+//@   props C12
 //@   mode pow
 //@   requires !same(z, x)
 //@   requires wf(x)
@@ -256,6 +287,7 @@ package field
 //@ lemma sqrt_ratio_one(u) {lean: Secp.sqrt_ratio_one}: (sr_isqr(u, F(1)) == issq(u)) && imp(sr_isqr(u, F(1)), fmul(sr_y(u, F(1)), sr_y(u, F(1))) == u)
 
 //@ func Element.SqrtRatio
+//@   props C12
 //@   mode ring
 //@   requires wf(u) && wf(v)
 //@   ensures wf: wf(e)
